@@ -20,6 +20,7 @@ import datetime as _dt
 from .. import core, harness, vclock, vloop
 
 PROP = 'C06'
+TECHNIQUE = ('runtime monitoring with crash-point enumeration: recording storage compared with get_state() after every step; every snapshot restarted after several downtimes on a new virtual loop and wall clock')
 LEVEL = 'fault_enumeration'
 RULE = ("case = (history of <=8 steps over {put/inc/FSM events with and without 'duration', Timer "
         "start/stop, InputExp put, TimeDate/TimeSpan reconfig, virtual sleeps that let timers "
